@@ -50,7 +50,7 @@ func variantsFor(prop, tier string) []string {
 		return []string{"inst", "inst-race"}
 	case "C14":
 		if tier == "quick" {
-			return []string{"plain", "pie", "inst"}
+			return []string{"plain", "pie", "inst", "inst-race"}
 		}
 		return []string{"plain", "pie", "inst", "inst-race"}
 	}
